@@ -138,6 +138,7 @@ func (r *PartitionRouter) loadAll(ctx context.Context) (int64, error) {
 
 func (r *PartitionRouter) watch(ctx context.Context, rev int64) {
 	for {
+		verifGate("router.beforeWatch", "partition")
 		// Resume right after the revision the routing table reflects, so a
 		// lease change landing between loadAll and Watch is not lost.
 		watchChan := r.client.Watch(ctx, partitionLeasePrefix+"/", clientv3.WithPrefix(), clientv3.WithPrevKV(), clientv3.WithRev(rev+1))
